@@ -14,7 +14,9 @@ RULE = ("IOR: the real minicbor_io::Reader over a scripted io::Read (per read ca
         "streams of up to 8 frames / 300-byte payloads. The harness oracle re-states the property on the implementation's own output: reads "
         "== written payloads (by decode verdict) then clean end; cut inside a frame -> UnexpectedEof; over-long -> InvalidLen; final reader "
         "buffer <= max_len; writer: one write call of be32(len)+payload per accepted value, returned length == payload length, refused "
-        "values put nothing into the sink. Non-trivial = the schedule has >= 2 tokens, or the stream is cut, or (IOW) any case.")
+        "values put nothing into the sink; IOW value lists may contain the caller operations F (Writer::flush, over an inner flush that succeeds "
+        "or fails) and M<n> (set_max_len n) between the values: they write nothing, flush calls the inner flush once and returns its result, "
+        "and every value is judged against the max_len in force (no theorem; correspondence and oracle only). Non-trivial = the schedule has >= 2 tokens, or the stream is cut, or (IOW) any case.")
 ASSUMPTIONS = ["the inner reader honours io::Read (returns n <= buf.len(); Ok(0) only at end of stream) and uses std's default read_exact",
                "max_len < 2^32 (set_max_len takes a u32), hence accepted payloads < 2^32 bytes; payloads near 2^32 bytes are not run on the real code",
                "the value codec is abstract in the theorems (dec : bytes -> option V); the correspondence runs it with ByteVec / a byte-string value",
@@ -121,6 +123,28 @@ def generate(tier, rng):
         sizes = [len(bstr(bytes.fromhex(v.lstrip("!").replace(".", "")))) for v in vals]
         mx = rng.choice([max(sizes), max(sizes) - 1, max(sizes) + 1, rng.choice(sizes), rng.choice(sizes) - 1, 512 * 1024, 0])
         out.append("IOW max=%d vals=%s sink=%s" % (max(mx, 0), ",".join(vals), sk))
+    # caller operations between the values: F = Writer::flush (sink letter E: the inner flush fails), M<n> = set_max_len(n)
+    for c in contents[:6]:
+        n = len(bstr(c))
+        for m in {0, max(n - 1, 0), n, n + 1}:
+            for seq, sk in (([item(c), "F", item(c)], "-"), (["F", item(c)], "E"), ([item(c), "F", "F", item(c)], "AEA"), (["M%d" % m, item(c)], "-"),
+                            ([item(c), "M%d" % m, item(c), "M%d" % (n + 5), item(c)], "-"), ([item(c), "M%d" % m, "F", item(c)], "AAEA"),
+                            (["!" + item(c), "M%d" % m, "F", item(c)], "-"), ([item(c), "M0", "M%d" % n, item(c), "F"], "EAAAE")):
+                out.append("IOW max=%d vals=%s sink=%s" % (n, ",".join(seq), sk))
+    for _ in range(6000 if big else 1500):
+        vals, sk = [], ""
+        sizes = []
+        for _ in range(rng.randrange(1, 8)):
+            r = rng.random()
+            if r < 0.2: vals.append("F")
+            elif r < 0.4: vals.append("M%d" % max(0, rng.choice([0, 1, 2, 5, 24, 25, 300, 512 * 1024, 4294967295] + sizes + [x - 1 for x in sizes] + [x + 1 for x in sizes])))
+            else:
+                n = rng.choice([0, 1, 2, 3, 5, 22, 23, 24, 25, 254, 255, 256, 300]) if rng.random() < 0.3 else rng.randrange(0, 12)
+                c = bytes(rng.getrandbits(8) for _ in range(n))
+                vals.append(("!" if rng.random() < 0.15 else "") + item(c))
+                sizes.append(len(bstr(c)))
+            sk += "E" if rng.random() < 0.15 else "A"
+        out.append("IOW max=%d vals=%s sink=%s" % (rng.choice([0, 5, 12, 300, 512 * 1024]), ",".join(vals), sk))
     # frames larger than 64 KiB (a reader that fills its buffer in steps has seams there): Interrupted and short reads around 2^16
     bigp = bytes((i * 7 + 3) & 0xff for i in range(70000))
     frb = [good(bigp), good(b"\x01\x02")]
